@@ -261,6 +261,16 @@ func corpus(prop string) []NamedScenario {
 	outb("delete", d, func(s *Std) J {
 		return J{"@context": asCtx, "type": "Delete", "actor": s.Alice.ID, "to": s.Dave, "object": []string{s.Note1, s.Note2}}
 	})
+	missingNil := func(s *Std) { s.W.Servers[0].GetMissing = "nil" } // the database answers (nil, nil) for what it does not have
+	outb("delete-one-missing", d, func(s *Std) J {
+		return J{"@context": asCtx, "type": "Delete", "actor": s.Alice.ID, "to": s.Dave, "object": []string{s.Note1, "https://" + hostA + "/n/never-had"}}
+	}, missingNil)
+	outb("update-missing", d, func(s *Std) J {
+		return J{"@context": asCtx, "type": "Update", "actor": s.Alice.ID, "to": s.Dave, "object": J{"type": "Note", "id": "https://" + hostA + "/n/never-had", "content": "edited"}}
+	}, missingNil)
+	outb("note-public-twice", d, func(s *Std) J {
+		return J{"@context": asCtx, "type": "Note", "content": "hello all", "to": publicIRI, "cc": []string{s.Dave, publicIRI}, "audience": "as:Public"}
+	})
 	outb("follow", d, func(s *Std) J {
 		return J{"@context": asCtx, "type": "Follow", "actor": s.Alice.ID, "to": s.Bob.ID, "object": s.Bob.ID}
 	})
